@@ -88,20 +88,61 @@ M = {
  "c09_color_mask": ("rustzx-core/src/zx/controller.rs", "self.set_border_color(self.frame_clocks, ZXColor::from_bits(data & 0x07));", "self.set_border_color(self.frame_clocks, ZXColor::from_bits(data & 0x03));"),
  "c09_stale_clock": ("rustzx-core/src/zx/controller.rs", "self.set_border_color(self.frame_clocks, ZXColor::from_bits(data & 0x07));", "self.set_border_color(self.frame_clocks.saturating_sub(40), ZXColor::from_bits(data & 0x07));"),
  "c09_origin_16t": ("rustzx-core/src/zx/video/border.rs", "            - BORDER_COLS * CLOCKS_PER_COL\n", "            - (BORDER_COLS + 4) * CLOCKS_PER_COL\n"),
+ # ---- C16
+ "c16_reset_counter_outside_loop": ("rustzx-core/src/emulator/mod.rs", "        loop {\n            // reset controller internal frame counter\n            self.controller.reset_frame_counter();", "        self.controller.reset_frame_counter();\n        loop {\n            // reset controller internal frame counter"),
+ "c16_mixer_frame_only_with_sound": ("rustzx-core/src/emulator/mod.rs", "    pub fn set_sound(&mut self, value: bool) {\n        self.sound_enabled = value;", "    pub fn set_sound(&mut self, value: bool) {\n        self.sound_enabled = value;\n        if !value { self.controller.frame_clocks += 1; }"),
+ "c16_asset_read_assumed_full": ("rustzx-core/src/host/io.rs", "                n => {\n                    let tmp = buf;\n                    buf = &mut tmp[n..];\n                }", "                _n => {\n                    let tmp = buf;\n                    let l = tmp.len();\n                    buf = &mut tmp[l..];\n                }"),
+ "c16_breakpoint_drops_fastload": ("rustzx-core/src/emulator/mod.rs", "                    if events.contains(EmulationEvents::TAPE_FAST_LOAD_TRIGGER_DETECTED) {\n                        self.process_fast_load_event()?;\n                    }\n                    if events.contains(EmulationEvents::PC_BREAKPOINT) {", "                    if events.contains(EmulationEvents::TAPE_FAST_LOAD_TRIGGER_DETECTED) && !events.contains(EmulationEvents::PC_BREAKPOINT) {\n                        self.process_fast_load_event()?;\n                    }\n                    if events.contains(EmulationEvents::PC_BREAKPOINT) {"),
+ "c16_max_mode_extra_frame": ("rustzx-core/src/emulator/mod.rs", "                        if self.controller.frames_count() != 0 {\n                            break 'cpu;", "                        if self.controller.frames_count() > 1 {\n                            break 'cpu;"),
+ # ---- C18 / C19 / C20 (from the sound builder's list)
+ "c18_tone_mask": ("aym/src/backends/precise.rs", "let period = period & 0xFFF;", "let period = period & 0xFF;"),
+ "c18_noise_shift": ("aym/src/backends/precise.rs", "if self.noise_counter >= self.noise_period << 1 {", "if self.noise_counter >= self.noise_period {"),
+ "c18_envelope_rows_swapped": ("aym/src/backends/precise.rs", "    [AymPrecise::slide_down, AymPrecise::slide_up],\n    [AymPrecise::slide_down, AymPrecise::hold_top],", "    [AymPrecise::slide_down, AymPrecise::hold_top],\n    [AymPrecise::slide_down, AymPrecise::slide_up],"),
+ "c18_bca_pan": ("aym/src/backends/precise.rs", "AyMode::BCA => (1.0, 0.0, 0.5),", "AyMode::BCA => (0.0, 1.0, 0.5),"),
+ "c18_volume_mask": ("aym/src/backends/precise.rs", "self.channels[index].volume = volume & 0x0F;", "self.channels[index].volume = volume & 0x07;"),
+ "c18_select_reg_mask": ("rustzx-core/src/zx/sound/ay.rs", "self.current_reg = (reg & 0x0F) as usize;", "self.current_reg = reg as usize;"),
+ "c18_readback_mask": ("rustzx-core/src/zx/sound/ay.rs", "        self.regs[self.current_reg]\n", "        self.regs[self.current_reg] & 0x7F\n"),
+ "c19_spf_plus1": ("rustzx-core/src/zx/sound/mixer.rs", "        self.sample_rate / FPS\n", "        self.sample_rate / FPS + 1\n"),
+ "c19_last_pos_not_reset": ("rustzx-core/src/zx/sound/mixer.rs", "        self.last_pos = 0;\n    }\n\n    pub fn pop", "    }\n\n    pub fn pop"),
+ "c19_overflow_guard": ("rustzx-core/src/zx/sound/mixer.rs", "        if self.ring_buffer.len() >= self.samples_per_frame() {\n            return;\n        }", ""),
+ "c19_ear_mic_swapped": ("rustzx-core/src/zx/controller.rs", "let mic = data & 0x08 != 0;\n                let ear = data & 0x10 != 0;", "let mic = data & 0x10 != 0;\n                let ear = data & 0x08 != 0;"),
+ "c20_r13_not_skipped": ("vtx/src/player.rs", "                if idx == 13 && value == 0xFF {\n                    continue;\n                }", ""),
+ "c20_spf_rounded_up": ("vtx/src/player.rs", "let samples_per_frame = sample_rate / vtx.player_frequency as usize;", "let samples_per_frame = (sample_rate + vtx.player_frequency as usize - 1) / vtx.player_frequency as usize;"),
+ "c20_transpose_swapped": ("vtx/src/lib.rs", "frame_data.push(transposed_frame_data[reg_idx * frames_count + frame_idx]);", "frame_data.push(transposed_frame_data[frame_idx * AY_REGISTER_COUNT + reg_idx]);"),
+ "c20_end_one_frame_early": ("vtx/src/lib.rs", "if offset + AY_REGISTER_COUNT > self.frame_data.len() {", "if offset + AY_REGISTER_COUNT >= self.frame_data.len() {"),
 }
 
+def _load_extra():
+    """mutants written by the tape builder (selftest/mutants_tape.py): (name, check, file, edits)"""
+    import importlib.util
+    here = os.path.dirname(os.path.abspath(__file__))
+    spec = importlib.util.spec_from_file_location("mutants_tape", os.path.join(here, "mutants_tape.py"))
+    mod = importlib.util.module_from_spec(spec)
+    spec.loader.exec_module(mod)
+    for name, check, f, edits in mod.MUTANTS:
+        key = "c%s_%s" % (check[1:], name.split("-", 1)[1].replace("-", "_"))
+        M[key] = (f, edits)
+    # the two stop() mutants refer to the pre-fix body of Tap::stop(); re-expressed on the fixed one
+    M["c12_stop_clears_delay"] = ("rustzx-core/src/zx/tape/tap.rs", [("            self.prev_state = self.state;\n            self.state = TapeState::Stop;", "            self.prev_state = self.state;\n            self.delay = 0;\n            self.state = TapeState::Stop;")])
+    M["c12_stop_does_not_stop"] = ("rustzx-core/src/zx/tape/tap.rs", [("            self.prev_state = self.state;\n            self.state = TapeState::Stop;", "            self.prev_state = self.state;")])
+
 def main():
+    _load_extra()
     if sys.argv[1] == "--list":
         print("\n".join(sorted(M)))
         return
     name, repo = sys.argv[1], sys.argv[2]
-    f, old, new = M[name]
+    ent = M[name]
+    f = ent[0]
+    edits = ent[1] if len(ent) == 2 else [(ent[1], ent[2])]
     p = os.path.join(repo, f)
     s = open(p).read()
-    if s.count(old) != 1:
-        print("pattern occurs %d times in %s" % (s.count(old), f))
-        sys.exit(1)
-    open(p, "w").write(s.replace(old, new))
+    for old, new in edits:
+        if s.count(old) < 1:
+            print("pattern not found in %s: %r" % (f, old[:60]))
+            sys.exit(1)
+        s = s.replace(old, new)
+    open(p, "w").write(s)
 
 if __name__ == "__main__":
     main()
